@@ -640,3 +640,33 @@ Inductive ch_shape : list byte -> Prop :=
     length suites = u16n c0 c1 -> Nat.even (length suites) = true -> length comp = N.to_nat cl ->
     ch_ext_part_ok ext ->
     ch_shape (hdr ++ v0 :: v1 :: random ++ sl :: sid ++ c0 :: c1 :: suites ++ cl :: comp ++ ext).
+
+(* ---------- the exact acceptance condition of serverHelloMsg.unmarshal (specification) ---------- *)
+(* signed certificate timestamps: non-empty strings with a two-byte length *)
+Inductive sct_list_ok : list byte -> Prop :=
+| SCT_nil : sct_list_ok []
+| SCT_cons : forall b0 b1 s rest, u16n b0 b1 <> 0 -> length s = u16n b0 b1 -> sct_list_ok rest -> sct_list_ok (b0 :: b1 :: s ++ rest).
+
+Definition sh_ext_body_ok (extension : N) (body : list byte) : Prop :=
+  if N.eqb extension extensionNextProtoNeg then alpn_list_ok body
+  else if N.eqb extension extensionStatusRequest then body = []
+  else if N.eqb extension extensionSessionTicket then body = []
+  else if N.eqb extension extensionRenegotiationInfo then
+    match body with b0 :: lst => length lst = N.to_nat b0 | _ => False end
+  else if N.eqb extension extensionALPN then
+    match body with b0 :: b1 :: l :: proto => u16n b0 b1 = S (length proto) /\ N.to_nat l = length proto /\ proto <> [] | _ => False end
+  else if N.eqb extension extensionSCT then
+    match body with b0 :: b1 :: lst => length lst = u16n b0 b1 /\ lst <> [] /\ sct_list_ok lst | _ => False end
+  else True.
+
+Inductive sh_ext_block_ok : list byte -> Prop :=
+| SEB_nil : sh_ext_block_ok []
+| SEB_cons : forall e0 e1 l0 l1 body rest,
+    length body = u16n l0 l1 -> sh_ext_body_ok (u16 e0 e1) body -> sh_ext_block_ok rest ->
+    sh_ext_block_ok (e0 :: e1 :: l0 :: l1 :: body ++ rest).
+
+Inductive sh_shape : list byte -> Prop :=
+| SHS : forall hdr v0 v1 random sl sid s0 s1 cm ext,
+    length hdr = 4 -> length random = 32 -> length sid = N.to_nat sl -> length sid <= 32 ->
+    (ext = [] \/ exists x0 x1 blk, ext = x0 :: x1 :: blk /\ length blk = u16n x0 x1 /\ sh_ext_block_ok blk) ->
+    sh_shape (hdr ++ v0 :: v1 :: random ++ sl :: sid ++ s0 :: s1 :: cm :: ext).
